@@ -159,6 +159,8 @@ def _crash_case(scn, mode, k, t, e, mt):
                     okc = False
             if not okc:
                 problems.append(("target neither old nor new nor absent-as-before", tgt, (fs.get(tgt) or b"")[:40]))
+        # after the restart the files are read through signac itself (which must not turn a leftover into the real thing)
+        problems += _api_read(fs, scn, targets, olds, news, parse, "after restart")
         after = fs.snapshot("/p")
         for k_, v in after.items():
             base = k_.split("/")[-1]
@@ -207,6 +209,111 @@ def h_fault(scn: int, k: int, e: int, mt: bool):
             r = _crash_case(scn, 4, k, -2, 0, mt)
         else:
             r = _crash_case(scn, 3, k, 0, [errno.EIO, errno.ENOSPC, errno.EACCES, errno.EROFS][e], mt)
+    reached()
+    assert r[0]
+
+
+def _api_read(fs, scn, targets, olds, news, parse, tag):
+    """a fresh session reads through the real API: the state point cache via Project._read_cache / open_job(id=), documents via
+    Job.document / Project.document. It must get old or new content (or 'no cache'), must not raise anything else, and must leave the
+    target files old-or-new as well (a reader that 'repairs' what it finds is a writer)."""
+    problems = []
+    hook, fs.hook = fs.hook, None
+    try:
+        prx = memfs.mkproject(fs, "/p")
+        if 7 <= scn <= 10:
+            try:
+                got = prx._read_cache()
+                cands = [parse(x) for x in (olds[0], news[0]) if x is not None]
+                if got is not None and got not in cands:
+                    problems.append((tag, "signac read a cache that is neither old nor new", sorted(got)[:3]))
+                for sp in ({"a": 0}, {"a": 1}):
+                    try:
+                        prx.open_job(id=refs.canon_id(sp)).statepoint()
+                    except (KeyError, LookupError):
+                        pass
+            except Exception as ex:  # noqa
+                problems.append((tag, "reading the state point cache through signac raised", type(ex).__name__, str(ex)[:80]))
+        else:
+            for tgt, old, new in zip(targets, olds, news):
+                try:
+                    if tgt.endswith("signac_project_document.json"):
+                        got = prx.document()
+                    else:
+                        jid = tgt.split("/")[-2]
+                        got = prx.open_job(id=jid).document()
+                    cands = [parse(x) for x in (old, new) if x is not None] + ([{}] if old is None else [])
+                    if scn == 6:
+                        cands += [{"k": 1, "b1": 1}, {"k": 1, "b1": 1, "b3": {"c": 3}}, {"m": 2, "b2": [1, 2]}]
+                    if got not in cands:
+                        problems.append((tag, "signac read a document that is neither old nor new", tgt, str(got)[:60]))
+                except Exception as ex:  # noqa
+                    problems.append((tag, "reading a document through signac raised", tgt, type(ex).__name__, str(ex)[:80]))
+        for tgt, old, new in zip(targets, olds, news):
+            okc = _ok_content(fs.get(tgt), old, new, parse)
+            if not okc and scn == 6:
+                try:
+                    okc = parse(fs.get(tgt)) in ({"k": 1, "b1": 1}, {"k": 1, "b1": 1, "b3": {"c": 3}}, {"m": 2, "b2": [1, 2]})
+                except Exception:  # noqa
+                    okc = False
+            if not okc:
+                problems.append((tag, "after a read through signac the target is neither old nor new", tgt, (fs.get(tgt) or b"")[:40]))
+    finally:
+        fs.hook = hook
+    return problems
+
+
+class _ApiReaderHook:
+    """a second process that runs a complete read through signac between two writer steps (before writer step i, unbounded)"""
+
+    def __init__(self, fs, i, fn):
+        self.fs, self.i, self.fn = fs, i, fn
+        self.n = 0
+        self.done = False
+        self.problems = []
+
+    def __call__(self, fs, idx, name, args):
+        n = self.n
+        self.n += 1
+        if not self.done and decide(lambda: self.i == n):
+            self.done = True
+            self.problems += self.fn("reader before writer step %d" % n)
+        return None
+
+
+def _reader_api_case(scn, i, mt):
+    news = _new_contents(scn, mt)
+    _mt(mt)
+    s, op, targets, parse = _setup(scn)
+    fs = s.fs
+    problems = []
+    try:
+        olds = [fs.get(x) for x in targets]
+        rh = _ApiReaderHook(fs, i, lambda tag: _api_read(fs, scn, targets, olds, news, parse, tag))
+        fs.hook = rh
+        try:
+            op()
+        except Exception as ex:  # noqa
+            problems.append(("the writer failed because a reader ran in between", type(ex).__name__, str(ex)[:80]))
+        fs.hook = None
+        fs.revive()
+        problems += rh.problems
+        for tgt, new in zip(targets, news):
+            if fs.get(tgt) is None or parse(fs.get(tgt)) != parse(new):
+                problems.append(("after writer and reader finished the target does not hold the new content", tgt))
+    finally:
+        s.close()
+        _mt(True)
+    return (not problems), problems
+
+
+def h_reader_api(scn: int, i: int, mt: bool):
+    """a reader that goes through signac's own read path (fresh Project: _read_cache / open_job(id) / document) scheduled before ANY writer step"""
+    assert 0 <= scn <= NSCN and 0 <= i and part_ok(scn)
+    fresh_path()
+    scn, mt = ci(scn, 0, NSCN), cb(mt)
+    with nt():
+        r = _reader_api_case(scn, i, mt)
     reached()
     assert r[0]
 
@@ -302,6 +409,10 @@ def _migration_doc_case(k, t, named, mt=True):
     saved = (CJ_.os, getattr(CJ_, "open", None), CJ_.uuid)
     fo = memfs.fake_os(fs)
     CJ_.os, CJ_.open = fo, fs.open
+    # the migration module itself as well: whatever file I/O it does on its own (not through the document back end) is numbered too
+    import signac.migration.v1_to_v2 as V12_
+    saved_v = (V12_.os, getattr(V12_, "open", None))
+    V12_.os, V12_.open = fo, fs.open
     plan = FaultPlan(2 if t else 1, k, t=t)
     fs.hook = plan
     problems = []
@@ -313,8 +424,8 @@ def _migration_doc_case(k, t, named, mt=True):
         except memfs.Crash:
             pass
         except RuntimeError as e:
-            if not isinstance(e.__cause__, memfs.Crash) and "Crash" not in repr(e.__cause__):
-                pass
+            if not plan.fired:
+                problems.append(("the migration failed although no crash was injected", repr(e.__cause__ or e)[:120]))
         except BaseException as e:  # noqa  (apply_migrations wraps exceptions; a Crash may arrive wrapped)
             if not isinstance(e, memfs.Crash):
                 raise
@@ -335,6 +446,11 @@ def _migration_doc_case(k, t, named, mt=True):
             del CJ_.open
         else:
             CJ_.open = saved[1]
+        V12_.os = saved_v[0]
+        if saved_v[1] is None:
+            del V12_.open
+        else:
+            V12_.open = saved_v[1]
         try:
             os.unlink(os.path.join(root, ".SIGNAC_PROJECT_MIGRATION_LOCK"))
         except OSError:
@@ -358,6 +474,7 @@ HARNESSES = [
     dict(name="h_crash", twin="h_crash__reach", timeout=(600, 1500), parts=(12, 12)),
     dict(name="h_fault", timeout=(600, 1500), parts=(12, 12)),
     dict(name="h_reader", timeout=(600, 1500), parts=(12, 12)),
+    dict(name="h_reader_api", timeout=(600, 1500), parts=(12, 12)),
 ]
 
 
